@@ -314,6 +314,37 @@ pub fn core_family(tier: Tier) -> Vec<(Sc, Vec<Bounds>)> {
 	out
 }
 
+/// A replacement that fails to spawn (C06, C07, C10; C04 / C09 see it through the fault
+/// family as well): `start`, optionally a wait-for-end, a restarting operation whose respawn
+/// fails, optionally one more operation — with a child that exits on the signal, outlives the
+/// grace period, or exits a tick later. What a failed respawn leaves behind (a flag, an armed
+/// timer, unraised tickets) must not act later.
+pub fn respawn_fault_family(tier: Tier) -> Vec<(Sc, Vec<Bounds>)> {
+	let mut out = vec![];
+	let passes = match tier {
+		Tier::Quick => both(0),
+		Tier::Thorough => [both(0), both(1)].concat(),
+	};
+	for pre in [None, Some(Op::ToWait)] {
+		for g in [Op::TryGRestart, Op::GRestart, Op::TryRestart, Op::Restart] {
+			for post in [None, Some(Op::Start), Some(Op::Run), Some(Op::GStop), Some(Op::ToWait)] {
+				let mut s = vec![Op::Start];
+				s.extend(pre);
+				s.push(g);
+				s.extend(post);
+				for r in reacts_for(&s) {
+					let mut sc = Sc::base(one_sender(&s), r, 2);
+					sc.spawn_fail_at = Some(2);
+					sc.errh = true;
+					sc.probes = post == Some(Op::Run);
+					out.push((sc, passes.clone()));
+				}
+			}
+		}
+	}
+	out
+}
+
 /// Spawn failures and operation faults (C04, C07, C09).
 pub fn fault_family(tier: Tier) -> Vec<(Sc, Vec<Bounds>)> {
 	let mut out = vec![];
